@@ -319,6 +319,21 @@ func genPhs(r *rng) map[string]MalType {
 	for i := 0; i < n; i++ {
 		m[r.pick(phNames)] = genData(r, 2)
 	}
+	if r.chance(1, 60) {
+		// a LONG value: its preamble line exceeds every usual line buffer (4 KiB, 64 KiB)
+		switch r.intn(3) {
+		case 0:
+			m[r.pick(phNames)] = strings.Repeat("0123456789 abc\"def ", 260) // ≈ 5 KiB string with quotes inside
+		case 1:
+			xs := make([]MalType, 1500)
+			for j := range xs {
+				xs[j] = 1000000 + j
+			}
+			m[r.pick(phNames)] = List{Val: xs}
+		default:
+			m[r.pick(phNames)] = strings.Repeat("x", 70000)
+		}
+	}
 	return m
 }
 
